@@ -13,7 +13,7 @@ import (
 )
 
 // Version is bumped whenever generation changes; case lists record it.
-const Version = "g12"
+const Version = "g13"
 
 // Region of a case (chosen by index so that budgets per region are fixed).
 type Region int
@@ -314,6 +314,9 @@ func Pattern(r *rand.Rand, i uint64, region Region) (string, string) {
 
 // D returns case i of the differential universe (shared by C01-C04, C08, C10-C13).
 func D(i uint64) Case {
+	if i >= WitnessBase {
+		return witness(i)
+	}
 	r := Rng("D", i)
 	region := RegionOf(i)
 	p, fam := Pattern(r, i, region)
